@@ -58,5 +58,7 @@ SEEDED = [
     ("C19-11", "C19-TOTAL"),
     ("C19-12", "C19-LIN"),
     ("C19-13", "C19-LIN"),
+    ("C19-14", "C19-LIN"),
+    ("C19-15", "C19-LIN"),
 ]
 MUTANTS = list(MUTANTS) + [_P("seed-" + sid, _os.path.join(_SEEDS, sid, "patch.diff"), rule) for sid, rule in SEEDED if _os.path.exists(_os.path.join(_SEEDS, sid, "patch.diff"))]
